@@ -105,12 +105,107 @@ EXTRA: dict = {
     'BCb': {'k': 'col', 'blocks': ['BR', 'BR']},
     'BRb': {'k': 'row', 'blocks': ['BC', 'BC']},
     'Sum3': {'k': 'sumtree', 'ops': {'dict': {'a': 'A22', 'b': ['B22', 'S22']}}},
+    # ---- operands that make algebraic shortcuts of transpose() WRONG -------------------------------
+    # classes tagged symmetric (transpose() returns self) that do NOT commute with each other: band Toeplitz
+    # with K >= 2 next to diagonals with distinct entries / other Toeplitz operators, on every structure that
+    # carries a symmetric operator ((AB)^T = BA != AB; a sum or block of them is only operand-wise symmetric)
+    'T2': {'k': 'toeplitz', 'band': [3, 1], 's': [2], 'method': 'dense'},
+    'T3': {'k': 'toeplitz', 'band': [2, 1], 's': [3], 'method': 'dense'},
+    'T3k3': {'k': 'toeplitz', 'band': [1, 2, -1], 's': [3], 'method': 'direct'},
+    'I4': {'k': 'ident', 's': [4]},
+    'H4': {'k': 'homoth', 'v': 3, 's': [4]},
+    'D4': {'k': 'diag', 'v': [1, 2, 3, -1], 's': [4]},
+    'D4I': {'k': 'expr', 'e': {'I': 'D4'}},
+    'T4k3': {'k': 'toeplitz', 'band': [3, 1, 2], 's': [4], 'method': 'dense'},
+    'D24': {'k': 'diag', 'v': [[1, 2, 3, 4], [2, 1, 0, -1]], 'axis': 0, 's': [2, 4]},
+    'D24r': {'k': 'diag', 'v': [2, -1], 'axis': 0, 's': [2, 4]},
+    'D25': {'k': 'diag', 'v': [1, 2, 0, -1, 3], 'axis': 1, 's': [2, 5]},
+    'Ds': {'k': 'diag', 'v': [1, 2], 'axis': 0, 's': G.IQU2},
+    'Dq': {'k': 'diag', 'v': [3, -1], 'axis': 0, 's': {'stokes': 'QU', 'shape': [2]}},
+    # user-defined classes (direct subclasses of AbstractLinearOperator acting through a matrix on the
+    # flattened pytree): decorated @symmetric with a NON-diagonal symmetric matrix (also on Stokes pytrees,
+    # next to the half-wave plate: it mixes Q and U), and undecorated (default lazy transpose)
+    'Sy2': {'k': 'user', 'sym': True, 'm': [[1, 2], [2, -1]], 's': [2]},
+    'Sy3': {'k': 'user', 'sym': True, 'm': [[0, 1, 2], [1, 3, -1], [2, -1, 1]], 's': [3]},
+    'Sy4': {'k': 'user', 'sym': True, 'm': [[1, 0, 2, 1], [0, 2, 1, 0], [2, 1, 0, 3], [1, 0, 3, -1]], 's': [4]},
+    'SyS': {'k': 'user', 'sym': True, 's': G.IQU2,
+            'm': [[1, 0, 2, 0, 0, 1], [0, 2, 0, 1, 1, 0], [2, 0, 0, 1, 3, 0], [0, 1, 1, 1, 0, 2], [0, 1, 3, 0, 2, 1], [1, 0, 0, 2, 1, 0]]},
+    'SyQ': {'k': 'user', 'sym': True, 's': {'stokes': 'QU', 'shape': [2]},
+            'm': [[1, 0, 2, 1], [0, 2, 1, 0], [2, 1, 0, 3], [1, 0, 3, -1]]},
+    'Ua23': {'k': 'user', 'sym': False, 'm': [[1, 2, 0], [0, -1, 3]], 's': [3], 't': [2]},
+    'Ua22': {'k': 'user', 'sym': False, 'm': [[0, 2], [1, -1]], 's': [2], 't': [2]},
+    # einsum operator with a pytree of blocks
+    'E_pb': {'k': 'einsum', 'bt': [[[1, 2], [0, 3]], [[2, 0], [1, 1]]], 's': {'list': [[2], [2]]}, 'sub': 'ij,j->i'},
+    # scalar multiples (HomothetyOperator @ op as the operators' __rmul__ builds it)
+    'K_T3': {'k': 'expr', 'e': {'smul': [2, 'T3']}},
+    'K_A23': {'k': 'expr', 'e': {'smul': [{'np': -0.5}, 'A23']}},
 }
 
 LET = dict(G.LET)
 LET.update(EXTRA)
 
 _tmpdir = None
+_user: dict = {}
+
+
+def user_classes():
+    """User-defined leaf operators: y = M @ concat(raveled input leaves), split along the output structure.
+    `Atom` keeps the default lazy transpose (jax.linear_transpose); `SymAtom` is decorated @symmetric (its
+    transpose() returns self, lx.is_symmetric is True) - its matrix IS symmetric but not diagonal."""
+    if _user:
+        return _user
+    import equinox
+
+    j = A.J()
+    jax, jnp, core = j['jax'], j['jnp'], j['core']
+
+    def apply(matrix, x, out):
+        v = jnp.concatenate([l.ravel() for l in jax.tree.leaves(x)])
+        y = matrix @ v
+        leaves, treedef = jax.tree.flatten(out)
+        res, pos = [], 0
+        for l in leaves:
+            n = int(np.prod(l.shape))
+            res.append(y[pos : pos + n].reshape(l.shape))
+            pos += n
+        return jax.tree.unflatten(treedef, res)
+
+    class Atom(core.AbstractLinearOperator):
+        matrix: jax.Array
+        _in: object = equinox.field(static=True)
+        _out: object = equinox.field(static=True)
+
+        def __init__(self, matrix, in_structure, out_structure):
+            self.matrix = matrix
+            self._in = in_structure
+            self._out = out_structure
+
+        def mv(self, x):
+            return apply(self.matrix, x, self._out)
+
+        def in_structure(self):
+            return self._in
+
+        def out_structure(self):
+            return self._out
+
+    @core.symmetric
+    class SymAtom(core.AbstractLinearOperator):
+        matrix: jax.Array
+        _in: object = equinox.field(static=True)
+
+        def __init__(self, matrix, in_structure, out_structure=None):
+            self.matrix = matrix
+            self._in = in_structure
+
+        def mv(self, x):
+            return apply(self.matrix, x, self._in)
+
+        def in_structure(self):
+            return self._in
+
+    _user.update(Atom=Atom, SymAtom=SymAtom)
+    return _user
 
 
 def build_operand(d, env):
@@ -118,7 +213,10 @@ def build_operand(d, env):
     jax, jnp = j['jax'], j['jnp']
     k = d['k']
     if k == 'einsum':
-        args = [jnp.asarray(np.array(d['b'], dtype=np.float32)), A.mk_struct(d['s'])]
+        if 'bt' in d:  # a pytree (list) of blocks, one per leaf of the input
+            args = [[jnp.asarray(np.array(b, dtype=np.float32)) for b in d['bt']], A.mk_struct(d['s'])]
+        else:
+            args = [jnp.asarray(np.array(d['b'], dtype=np.float32)), A.mk_struct(d['s'])]
         if d['sub'] is not None:
             args.append(d['sub'])
         return j['dense'].DenseBlockDiagonalOperator(*args)
@@ -137,6 +235,10 @@ def build_operand(d, env):
         path = os.path.join(_tmpdir, f'obs{abs(hash(json.dumps(d["m"])))}.npz')
         np.savez(path, format='csr', data=c.data, indices=c.indices, indptr=c.indptr, shape=np.array(c.shape))
         return ToastObservationMatrixOperator(path)
+    if k == 'user':
+        cls = user_classes()['SymAtom' if d['sym'] else 'Atom']
+        si = A.mk_struct(d['s'])
+        return cls(jnp.asarray(np.array(d['m'], dtype=np.float32)), si, A.mk_struct(d['t']) if 't' in d else si)
     if k == 'lazyT':
         return j['core'].TransposeOperator(A.eval_expr(d['of'], env))
     if k == 'sumtree':
@@ -205,6 +307,8 @@ def build_expr(case, env):
         return env[case['name']]
     ops = [env[n] for n in case['ops']]
     ctx = case['ctx']
+    if ctx == 'operand':
+        return ops[0]
 
     def comp(o):
         return core.CompositionOperator(list(o)) if len(o) > 1 else o[0]
@@ -256,6 +360,366 @@ def value_coq(x) -> str:
 
 def inner(a, b) -> float:
     return float(np.dot(A.flat(a), A.flat(b)))
+
+
+# ---------------------------------------------------------------------------------------------
+# dtype stream: the classes whose parameters / inputs may be complex (einsum blocks, diagonal values, scalars, band
+# values, user matrices; index / axes / polarimetry operators on complex inputs), with complex64 - and, under
+# jax.enable_x64, complex128 and float64 - parameters AND structures.  The property is the PLAIN transpose (bilinear
+# sum((A x) * y) == sum(x * (A.T y)), dense(A.T) == dense(A).T, no conjugation).  The values are Gaussian integers with
+# non-zero imaginary parts so that a stray conj() is visible and every comparison is exact.  The Coq model is over the
+# rationals: this stream is implementation-side only (oracle: NumPy transposition of the matrix measured through mv
+# on basis vectors, bilinear identity on a complex probe, jax.linear_transpose of the same operator).
+
+DTS = {'complex64': False, 'complex128': True, 'float64': True}  # dtype -> needs x64
+IQUs = {'stokes': 'IQU', 'shape': [2]}
+CB222 = [[[1j, 1], [2 - 1j, 3]], [[4 + 1j, -1j], [1 + 1j, 2]]]
+CB223 = [[[1 + 1j, 0, 2j], [0, 1 - 1j, 1]], [[2, 1j, 0], [1 - 2j, 1, 3j]]]
+CB232 = [[[1j, 2], [0, 1 + 1j], [3, -1j]], [[0, 1], [1 - 1j, 1], [2j, 4]]]
+CX: dict = {
+    # einsum operator (hand-written transpose: same blocks, rewritten subscripts)
+    'cE23': {'k': 'einsum', 'b': [[1 + 1j, 2 - 1j, 3j], [0, 1 - 2j, 2]], 's': [3], 'sub': 'ij,j->i'},
+    'cE32': {'k': 'einsum', 'b': [[1j, 1], [2 + 1j, 0], [3, 1 - 1j]], 's': [2], 'sub': 'ij,j->i'},
+    'cE22': {'k': 'einsum', 'b': [[1 + 2j, -1j], [2, 1 - 1j]], 's': [2], 'sub': 'ij,j->i'},
+    'cS22': {'k': 'einsum', 'b': [[1 + 1j, 2 - 1j], [2 - 1j, 3j]], 's': [2], 'sub': 'ij,j->i'},  # symmetric, not Hermitian
+    'cHm22': {'k': 'einsum', 'b': [[2, 1 - 1j], [1 + 1j, 3]], 's': [2], 'sub': 'ij,j->i'},  # Hermitian, not symmetric
+    'cE33': {'k': 'einsum', 'b': [[1, 1j, 0], [2 - 1j, 1, 0], [0, 1 + 1j, 2j]], 's': [3], 'sub': 'ij,j->i'},
+    'cE_h': {'k': 'einsum', 'b': CB223, 's': [2, 3], 'sub': 'hij,hj->hi'},
+    'cE_ikj': {'k': 'einsum', 'b': CB232, 's': [3, 2], 'sub': 'ikj,kj->ki'},
+    'cE_def': {'k': 'einsum', 'b': [[1j, 2], [0, 3 - 1j], [4, 1j]], 's': [2, 2], 'sub': None},
+    'cE_iij': {'k': 'einsum', 'b': CB222, 's': [2], 'sub': 'iij,j->i'},
+    'cE_tree': {'k': 'einsum', 'b': [[1 + 1j, 2], [-1j, 3]], 's': {'list': [[2], [2]]}, 'sub': 'ij,j->i'},
+    'cE_pb': {'k': 'einsum', 'bt': [[[1j, 2], [0, 3 + 1j]], [[2, -1j], [1 + 1j, 1]]], 's': {'list': [[2], [2]]}, 'sub': 'ij,j->i'},
+    # diagonal family
+    'cD2': {'k': 'diag', 'v': [1 + 1j, 2j], 's': [2]},
+    'cD2I': {'k': 'expr', 'e': {'I': 'cD2'}},
+    'cD3': {'k': 'diag', 'v': [1 + 1j, 2 - 1j, -3j], 's': [3]},
+    'cD23': {'k': 'diag', 'v': [1j, 2, 1 - 1j], 'axis': 1, 's': [2, 3]},
+    'cDs': {'k': 'diag', 'v': [1 + 1j, -2j], 'axis': 0, 's': IQUs},
+    'cBd3': {'k': 'bdiag', 'v': [[1 + 1j, 1, 2j], [2, 1 - 1j, 0]], 'axis': -1, 's': [3]},
+    'cBd2': {'k': 'bdiag', 'v': [[2j, 3, 1], [1 - 1j, 0, 1j]], 'axis': 0, 's': [2]},
+    # identity, scalars
+    'cI2': {'k': 'ident', 's': [2]},
+    'cI3': {'k': 'ident', 's': [3]},
+    'cH2': {'k': 'homoth', 'v': 2 - 1j, 's': [2]},
+    'cH3': {'k': 'homoth', 'v': 1j, 's': [3]},
+    'cHs': {'k': 'homoth', 'v': 1 + 1j, 's': IQUs},
+    'cK_E22': {'k': 'expr', 'e': {'smul': [1 + 2j, 'cE22']}},
+    'cK_E23': {'k': 'expr', 'e': {'mulr': ['cE23', -1j]}},
+    # symmetric band Toeplitz with complex band values (symmetric, not Hermitian)
+    'cT2': {'k': 'toeplitz', 'band': [1j, 2], 's': [2], 'method': 'direct'},
+    'cT3': {'k': 'toeplitz', 'band': [2 + 1j, 1 - 1j], 's': [3], 'method': 'dense'},
+    'cT3b': {'k': 'toeplitz', 'band': [[2, 1j], [1 + 1j, -1]], 's': [2, 3], 'method': 'dense'},
+    # parameter-free classes on complex inputs (lazy / hand-written transposes)
+    'cX3r': {'k': 'index', 'idx': [{'arr': [1, 1, 2]}], 's': [3]},
+    'cX3u': {'k': 'index', 'idx': [{'arr': [2, 0]}], 's': [3], 'unique': True},
+    'cP3': {'k': 'pack', 'mask': [True, False, True], 's': [3]},
+    'cM23': {'k': 'moveaxis', 'src': 0, 'dst': 1, 's': [2, 3]},
+    'cSh23': {'k': 'reshape', 'shape': [3, 2], 's': [2, 3]},
+    'cSh32': {'k': 'reshape', 'shape': [2, 3], 's': [3, 2]},
+    'cR23': {'k': 'ravel', 's': [2, 3]},
+    'cQ1': {'k': 'qurot', 'stokes': 'IQU', 'shape': [2], 'q': [1]},
+    'cQ2': {'k': 'qurot', 'stokes': 'IQU', 'shape': [2], 'q': [2, 3], 'vec': True},
+    'cW': {'k': 'hwp', 'stokes': 'IQU', 'shape': [2]},
+    'cPl': {'k': 'pol', 'stokes': 'IQU', 'shape': [2]},
+    # user classes: default lazy transpose / @symmetric with a non-diagonal complex symmetric matrix
+    'cU23': {'k': 'user', 'sym': False, 'm': [[1j, 2, 0], [1 - 1j, -1, 3j]], 's': [3], 't': [2]},
+    'cU22': {'k': 'user', 'sym': False, 'm': [[0, 2j], [1, -1 + 1j]], 's': [2], 't': [2]},
+    'cSy2': {'k': 'user', 'sym': True, 'm': [[1j, 2], [2, -1 + 1j]], 's': [2]},
+    'cSy3': {'k': 'user', 'sym': True, 'm': [[0, 1j, 2], [1j, 3, -1], [2, -1, 1 - 1j]], 's': [3]},
+    'cSyS': {'k': 'user', 'sym': True, 's': IQUs,
+             'm': [[1, 0, 2j, 0, 0, 1], [0, 2, 0, 1, 1j, 0], [2j, 0, 0, 1, 3, 0], [0, 1, 1, 1j, 0, 2], [0, 1j, 3, 0, 2, 1], [1, 0, 0, 2, 1, 0]]},
+    # explicit lazy transposes, transposes as operands
+    'cLT_E23': {'k': 'lazyT', 'of': 'cE23'},
+    'cLT_D3': {'k': 'lazyT', 'of': 'cD3'},
+    'cLT_c': {'k': 'lazyT', 'of': {'comp': ['cE23', 'cE32']}},
+    'cE23T': {'k': 'expr', 'e': {'T': 'cE23'}},
+    'cX3rT': {'k': 'expr', 'e': {'T': 'cX3r'}},
+    'cBd3T': {'k': 'expr', 'e': {'T': 'cBd3'}},
+    # containers, sums
+    'cBR': {'k': 'row', 'blocks': ['cE22', 'cS22']},
+    'cBC': {'k': 'col', 'blocks': {'dict': {'b': 'cE22', 'a': 'cD2'}}},
+    'cBD': {'k': 'bdiagop', 'blocks': {'tuple': ['cE23', 'cD2']}},
+    'cSum': {'k': 'expr', 'e': {'add': ['cE22', 'cS22']}},
+    'cSumD': {'k': 'sumtree', 'ops': {'dict': {'a': 'cT2', 'b': ['cD2', 'cE22']}}},
+}
+
+
+def x64_context(dt):
+    import contextlib
+
+    return A.J()['jax'].enable_x64(True) if DTS[dt] else contextlib.nullcontext()
+
+
+def cast(v, dt):
+    """Complex description value(s) -> array of dtype dt (a real dtype gets re + im: still distinct small integers)."""
+    a = np.array(v, dtype=np.complex128)
+    if np.dtype(dt).kind != 'c':
+        a = a.real + a.imag
+    return A.J()['jnp'].asarray(a.astype(dt))
+
+
+def struct_dt(desc, dt):
+    jax = A.J()['jax']
+    return jax.tree.map(lambda l: jax.ShapeDtypeStruct(l.shape, np.dtype(dt)), A.mk_struct(desc))
+
+
+def cx_scalar(k, dt):
+    if isinstance(k, complex):
+        return complex(k) if np.dtype(dt).kind == 'c' else float(k.real + k.imag)
+    return A.scalar_value(k)
+
+
+def cx_expr(ex, env, dt):
+    if isinstance(ex, dict):
+        (kind, arg), = ex.items()
+        if kind == 'smul':
+            return cx_scalar(arg[0], dt) * cx_expr(arg[1], env, dt)
+        if kind == 'mulr':
+            return cx_expr(arg[0], env, dt) * cx_scalar(arg[1], dt)
+    return A.eval_expr(ex, env)
+
+
+def build_cx(d, env, dt):
+    jj = A.J()
+    jnp = jj['jnp']
+    k = d['k']
+    if k == 'einsum':
+        blocks = [cast(b, dt) for b in d['bt']] if 'bt' in d else cast(d['b'], dt)
+        args = [blocks, struct_dt(d['s'], dt)] + ([d['sub']] if d['sub'] is not None else [])
+        return jj['dense'].DenseBlockDiagonalOperator(*args)
+    if k in ('diag', 'bdiag'):
+        cls = jj['diagonal'].DiagonalOperator if k == 'diag' else jj['diagonal'].BroadcastDiagonalOperator
+        return cls(cast(d['v'], dt), axis_destination=d.get('axis', 0), in_structure=struct_dt(d['s'], dt))
+    if k == 'ident':
+        return jj['core'].IdentityOperator(struct_dt(d['s'], dt))
+    if k == 'homoth':
+        return jj['core'].HomothetyOperator(cast(d['v'], dt), struct_dt(d['s'], dt))
+    if k == 'toeplitz':
+        return jj['toeplitz'].SymmetricBandToeplitzOperator(cast(d['band'], dt), struct_dt(d['s'], dt), method=d['method'])
+    if k == 'index':
+        idx = tuple(A.index_entry(x) for x in d['idx'])
+        kw = {'unique_indices': d['unique']} if 'unique' in d else {}
+        return jj['indices'].IndexOperator(idx if len(idx) != 1 else idx[0], in_structure=struct_dt(d['s'], dt), **kw)
+    if k == 'pack':
+        return jj['linear'].PackOperator(jnp.asarray(d['mask'], dtype=bool), struct_dt(d['s'], dt))
+    if k == 'moveaxis':
+        return jj['axes'].MoveAxisOperator(A.as_axis(d['src']), A.as_axis(d['dst']), in_structure=struct_dt(d['s'], dt))
+    if k == 'ravel':
+        return jj['axes'].RavelOperator(d.get('first', 0), d.get('last', -1), in_structure=struct_dt(d['s'], dt))
+    if k == 'reshape':
+        return jj['axes'].ReshapeOperator(tuple(d['shape']), in_structure=struct_dt(d['s'], dt))
+    if k in ('qurot', 'hwp', 'pol'):
+        s = struct_dt({'stokes': d['stokes'], 'shape': d['shape']}, dt)
+        if k == 'hwp':
+            return jj['hwp'].HWPOperator(s)
+        if k == 'pol':
+            return jj['pol'].LinearPolarizerOperator(s)
+        ashape = () if len(d['q']) == 1 and not d.get('vec') else (len(d['q']),)
+        return jj['qu'].QURotationOperator(A.q_angles(d['q'], ashape).astype(jnp.float32), s)
+    if k == 'user':
+        cls = user_classes()['SymAtom' if d['sym'] else 'Atom']
+        si = struct_dt(d['s'], dt)
+        return cls(cast(d['m'], dt), si, struct_dt(d['t'], dt) if 't' in d else si)
+    if k == 'lazyT':
+        return jj['core'].TransposeOperator(A.eval_expr(d['of'], env))
+    if k == 'sumtree':
+        return jj['core'].AdditionOperator(A.container(d['ops'], env))
+    if k in ('row', 'bdiagop', 'col'):
+        return A.build_operand(d, env)
+    if k == 'expr':
+        return cx_expr(d['e'], env, dt)
+    raise ValueError(k)
+
+
+_cx_env: dict = {}
+_cx_typed: dict = {}
+
+
+def cx_env(dt):
+    """Environment of the dtype stream (to be called inside x64_context(dt)): the real operands (the block contexts
+    use two of them) + the CX alphabet with dtype dt."""
+    if dt not in _cx_env:
+        ev = dict(env())
+        for name, d in CX.items():
+            try:
+                ev[name] = build_cx(d, ev, dt)
+            except Exception as ex:
+                ev[name] = A.Unbuildable(name, ex)
+        _cx_env[dt] = ev
+    return _cx_env[dt]
+
+
+def cx_typed(dt):
+    if dt not in _cx_typed:
+        env()
+        with x64_context(dt):
+            ev = cx_env(dt)
+            _cx_typed[dt] = {n: (G.key(ev[n].in_structure()), G.key(ev[n].out_structure())) for n in CX if not isinstance(ev[n], A.Unbuildable)}
+    return _cx_typed[dt]
+
+
+def sstr(s):
+    """Structure with dtype names (the shared struct_repr has no code for complex128)."""
+    jax = A.J()['jax']
+    leaves, treedef = jax.tree.flatten(s)
+    return [str(treedef), [[list(l.shape), str(np.dtype(l.dtype))] for l in leaves]]
+
+
+def cflat(y):
+    leaves = A.J()['jax'].tree.leaves(y)
+    if not leaves:
+        return np.zeros(0, dtype=np.complex128)
+    return np.concatenate([np.asarray(l).astype(np.complex128).ravel() for l in leaves])
+
+
+def cdense(op):
+    cols = [cflat(op.mv(x)) for x in A.basis_inputs(op.in_structure())]
+    if not cols:
+        return np.zeros((A.struct_size(op.out_structure()), 0), dtype=np.complex128)
+    return np.stack(cols, axis=1)
+
+
+def cnum(z):
+    z = complex(z)
+    return [A.frac_json(A.to_frac(z.real)), A.frac_json(A.to_frac(z.imag))]
+
+
+def cmat_json(m):
+    return [[cnum(v) for v in row] for row in m]
+
+
+def cval(p):
+    from fractions import Fraction
+
+    return complex(float(Fraction(p[0])), float(Fraction(p[1])))
+
+
+def cmat(m):
+    return np.array([[cval(v) for v in row] for row in m], dtype=np.complex128).reshape(len(m), len(m[0]) if m else 0)
+
+
+def cclose(a, b, tol=2e-5):
+    a, b = np.asarray(a), np.asarray(b)
+    return a.shape == b.shape and bool(np.all(np.abs(a - b) <= tol * np.maximum(1.0, np.maximum(np.abs(a), np.abs(b)))))
+
+
+def names_skel(op):
+    jj = A.J()
+    core, blocks = jj['core'], jj['blocks']
+    name = type(op).__name__
+    if isinstance(op, core.CompositionOperator):
+        return [name, [names_skel(o) for o in op.operands]]
+    if isinstance(op, core.AdditionOperator):
+        return [name, [names_skel(o) for o in op.operand_leaves]]
+    if isinstance(op, blocks.AbstractBlockOperator):
+        return [name, [names_skel(o) for o in op.block_leaves]]
+    if hasattr(op, 'operator') and isinstance(op.operator, core.AbstractLinearOperator):
+        return [name, [names_skel(op.operator)]]
+    return [name, []]
+
+
+def cprobe(struct, rng, dt):
+    """A pytree of Gaussian integers with non-zero imaginary parts (small integers for a real dtype)."""
+    jj = A.J()
+    jax, jnp = jj['jax'], jj['jnp']
+    leaves, treedef = jax.tree.flatten(struct)
+    vals = []
+    for l in leaves:
+        n = int(np.prod(l.shape))
+        v = np.array([rng.randint(-3, 3) for _ in range(n)], dtype=np.float64)
+        if np.dtype(l.dtype).kind == 'c':
+            v = v + 1j * np.array([rng.choice([-2, -1, 1, 2]) for _ in range(n)])
+        vals.append(jnp.asarray(v.reshape(l.shape).astype(np.dtype(l.dtype))))
+    return jax.tree.unflatten(treedef, vals)
+
+
+def observe_dtype(case):
+    import random
+
+    dt = case['dt']
+    env()
+    with x64_context(dt):
+        ev = cx_env(dt)
+        bad = [n for n in list(case['ops']) + list(case.get('ops2') or []) if isinstance(ev[n], A.Unbuildable)]
+        if bad:
+            return {'build_error': f'{bad[0]}: {ev[bad[0]].error}'}
+        e = build_expr(case, ev)
+        obs = {'dt': dt, 'skel': names_skel(e), 'in': sstr(e.in_structure()), 'out': sstr(e.out_structure())}
+
+        def part(thunk):
+            try:
+                op = thunk()
+            except Exception as ex:
+                name = type(ex).__name__
+                return None, {'err': name if name in A.ERRS else f'Other:{name}'}
+            o = {'skel': names_skel(op), 'in': sstr(op.in_structure()), 'out': sstr(op.out_structure())}
+            try:
+                o['mat'] = cmat_json(cdense(op))
+            except Exception as ex:
+                o['mat'] = None
+                o['mat_error'] = f'{type(ex).__name__}: {str(ex)[:200]}'
+            return op, o
+
+        try:
+            obs['mat'] = cmat_json(cdense(e))
+        except Exception as ex:
+            obs['mat'] = None
+            obs['mat_error'] = f'{type(ex).__name__}: {str(ex)[:200]}'
+        eT, obs['T'] = part(lambda: e.T)
+        if eT is not None:
+            _, obs['TT'] = part(lambda: eT.T)
+            if case['ctx'] in ('operand', 'comp', 'sum'):
+                # the automatically derived transpose of the same operator (jax.linear_transpose)
+                _, obs['auto'] = part(lambda: A.J()['core'].TransposeOperator(e))
+            rng = random.Random(case['seed'])
+            x = cprobe(e.in_structure(), rng, dt)
+            y = cprobe(e.out_structure(), rng, dt)
+            try:
+                obs['probe'] = [cnum(np.sum(cflat(e.mv(x)) * cflat(y))), cnum(np.sum(cflat(x) * cflat(eT.mv(y))))]
+            except Exception as ex:
+                obs['probe'] = None
+                obs['probe_error'] = f'{type(ex).__name__}: {str(ex)[:200]}'
+    case['_unsupported'] = 'dtype stream (implementation-side oracle only)'
+    return obs
+
+
+def oracle_dtype(case, obs):
+    if not isinstance(obs, dict) or 'build_error' in obs:
+        return None
+    oT = obs['T']
+    dt = obs['dt']
+    if 'err' in oT:
+        return f'[{dt}] e.T raised {oT["err"]}'
+    if oT['in'] != obs['out'] or oT['out'] != obs['in']:
+        return f'[{dt}] structures of e.T are not those of e swapped: e {obs["in"]} -> {obs["out"]}, e.T {oT["in"]} -> {oT["out"]}'
+    if obs.get('mat') is None:
+        return None
+    if oT.get('mat') is None:
+        return f'[{dt}] e.T cannot be applied: {oT.get("mat_error")}'
+    m, mT = cmat(obs['mat']), cmat(oT['mat'])
+    if m.size and not cclose(mT, m.T):
+        hint = ' (it is the CONJUGATE transpose)' if cclose(mT, m.conj().T) else ''
+        return f'[{dt}] dense matrix of e.T {oT["mat"]} is not the transpose of the dense matrix of e {obs["mat"]}{hint}; entries are [re, im]'
+    au = obs.get('auto') or {}
+    if au.get('mat') is not None and m.size and not cclose(cmat(au['mat']), m.T):
+        return f'[{dt}] jax.linear_transpose of e (TransposeOperator(e)) {au["mat"]} is not the transpose of the dense matrix of e {obs["mat"]}'
+    pr = obs.get('probe')
+    if pr is None:
+        return f'[{dt}] sum((e x) * y) / sum(x * (e.T y)) could not be evaluated: {obs.get("probe_error")}'
+    a, b = cval(pr[0]), cval(pr[1])
+    if abs(a - b) > 1e-4 * max(1.0, abs(a), abs(b)):
+        return f'[{dt}] sum((e x) * y) = {a} differs from sum(x * (e.T y)) = {b} on the Gaussian-integer probe (seed {case["seed"]})'
+    oTT = obs.get('TT') or {}
+    if 'err' in oTT:
+        return f'[{dt}] e.T.T raised {oTT["err"]}'
+    if oTT.get('mat') is None:
+        return f'[{dt}] e.T.T cannot be applied: {oTT.get("mat_error")}'
+    if m.size and not cclose(cmat(oTT['mat']), m):
+        return f'[{dt}] e.T.T does not act as e: {oTT["mat"]} vs {obs["mat"]}'
+    if oTT['in'] != obs['in'] or oTT['out'] != obs['out']:
+        return f'[{dt}] structures of e.T.T differ from those of e'
+    return None
 
 
 class Check(PropertyCheck):
@@ -338,9 +802,8 @@ class Check(PropertyCheck):
         picked = picked2 + chains3
         seen = set()
 
-        def add(ch, ctx):
-            ops2 = None
-            if ctx in ('sum', 'sumdict', 'blockdiag-nested', 'blockcol-dict', 'blockrow-tuple'):
+        def add(ch, ctx, ops2=None):
+            if ops2 is None and ctx in ('sum', 'sumdict', 'blockdiag-nested', 'blockcol-dict', 'blockrow-tuple'):
                 cands = by_type.get((t[ch[-1]][0], t[ch[0]][1]), [ch])
                 ops2 = rng.choice(cands)
             if ctx == 'blockcol-dict' and ops2 is not None and t[ops2[-1]][0] != t[ch[-1]][0]:
@@ -365,7 +828,135 @@ class Check(PropertyCheck):
             ctxs = [c for c in CONTEXTS if c not in ('comp', 'matmul', 'nested')]
             for ctx in (ctxs if not quick else [ctxs[i % len(ctxs)], ctxs[(i + 3) % len(ctxs)]]):
                 add([n], ctx)
+
+        # ---- shortcut-sensitive stream (both tiers, every context) ------------------------------------
+        # Operand combinations on which an algebraic shortcut of transpose() would be WRONG:
+        # (1) chains of 2-3 operands that are ALL tagged symmetric (lx.is_symmetric: transpose() returns self) and do
+        #     not commute, so that (AB)^T = BA differs from AB - in every context (bare, @, nested, inside sums and
+        #     blocks, under a lazy transpose); commuting all-symmetric chains once (bare);
+        # (2) X @ X for every square operand that is not tagged symmetric ((XX)^T = X^T X^T);
+        # (3) sums and blocks mixing one tagged-symmetric and one other operand, in both orders.
+        import lineax as lx
+
+        sym = [n for n in names if lx.is_symmetric(e[n])]
+        mats = {n: A.dense(e[n]) for n in sym}
+        sym_by_type: dict = {}
+        for n in sym:
+            sym_by_type.setdefault(t[n], []).append(n)
+
+        def commute(a, b):
+            return np.array_equal(mats[a] @ mats[b], mats[b] @ mats[a])
+
+        nc2, c2 = [], []
+        for group in sym_by_type.values():
+            for a in group:
+                for b in group:
+                    (c2 if commute(a, b) else nc2).append([a, b])
+        nc3 = []
+        for group in sym_by_type.values():
+            for a in group:
+                for b in group:
+                    for c in group:
+                        m = mats[a] @ mats[b] @ mats[c]
+                        if not np.array_equal(m, m.T):
+                            nc3.append([a, b, c])
+        rng.shuffle(nc3)
+        rng.shuffle(c2)
+        self.stats['all_symmetric_chains'] = {
+            'tagged_symmetric_operands': len(sym), 'len2_noncommuting': len(nc2), 'len2_commuting': len(c2), 'len3_not_symmetric': len(nc3),
+        }
+        for i, ch in enumerate(nc2):
+            rest = CONTEXTS[1:]
+            for ctx in (CONTEXTS if not quick else ['comp'] + [rest[(3 * i + d) % len(rest)] for d in range(3)]):
+                add(ch, ctx)
+        for ch in c2[: 40 if quick else len(c2)]:
+            add(ch, 'comp')
+        for i, ch in enumerate(nc3[: 60 if quick else 400]):
+            add(ch, 'comp')
+            add(ch, CONTEXTS[1 + (i % (len(CONTEXTS) - 1))])
+        square_ns = [n for n in names if t[n][0] == t[n][1] and n not in sym]
+        for i, n in enumerate(square_ns):
+            add([n, n], 'comp')
+            if not quick:
+                add([n, n, n], 'matmul')
+        nonsym_by_type: dict = {}
+        for n in names:
+            if n not in sym:
+                nonsym_by_type.setdefault(t[n], []).append(n)
+        mixed_ctx = ('sum', 'sumdict', 'blockdiag-nested', 'blockcol-dict', 'blockrow-tuple')
+        k = 0
+        for n in sym:
+            partners = list(nonsym_by_type.get(t[n], []))
+            rng.shuffle(partners)
+            for p in partners[: 2 if quick else 6]:
+                for a, b in ((n, p), (p, n)):
+                    for ctx in ([mixed_ctx[k % len(mixed_ctx)]] if quick else mixed_ctx):
+                        add([a], ctx, [b])
+                        k += 1
+        self.dtype_cases(out, quick, rng)
         return out
+
+    def dtype_cases(self, out, quick, rng):
+        """The dtype stream (see CX): every operand, type-compatible chains of 2-3 operands in rotating contexts, and
+        every non-commuting all-symmetric pair in every context; complex64 in full, complex128 / float64 (x64) sampled."""
+        import lineax as lx
+
+        budget = {'complex64': (100, 30), 'complex128': (30, 10), 'float64': (20, 6)} if quick else {d: (10**6, 300) for d in DTS}
+        bad = {}
+        nc2 = None
+        for dt in DTS:
+            t = cx_typed(dt)
+            ev = _cx_env[dt]
+            bad.update({f'{n}[{dt}]': ev[n].error for n in CX if isinstance(ev[n], A.Unbuildable)})
+            names = sorted(t)
+            seen = set()
+
+            def add(ch, ctx, ops2=None):
+                if ops2 is None and ctx in ('sum', 'sumdict', 'blockdiag-nested', 'blockcol-dict', 'blockrow-tuple'):
+                    cands = [[n] for n in names if t[n] == (t[ch[-1]][0], t[ch[0]][1])] or [ch]
+                    ops2 = rng.choice(cands)
+                k = (tuple(ch), ctx, tuple(ops2 or ()))
+                if k in seen:
+                    return
+                seen.add(k)
+                c = {'kind': 'dtype', 'dt': dt, 'ops': list(ch), 'ctx': ctx, 'seed': rng.randrange(10**6)}
+                if ops2:
+                    c['ops2'] = list(ops2)
+                out.append(c)
+
+            for n in names:
+                add([n], 'operand')
+            by_out: dict = {}
+            for n in names:
+                by_out.setdefault(t[n][1], []).append(n)
+            pairs = [[a, b] for a in names for b in by_out.get(t[a][0], [])]
+            triples = [[a, b, c] for a, b in pairs for c in by_out.get(t[b][0], [])]
+            rng.shuffle(pairs)
+            rng.shuffle(triples)
+            if nc2 is None:  # measured once (complex64); a pair that commutes for another dtype only adds a case
+                sym = [n for n in names if lx.is_symmetric(ev[n])]
+                mats = {n: cdense(ev[n]) for n in sym}
+                nc2 = [[a, b] for a in sym for b in sym if t[a] == t[b] and not np.array_equal(mats[a] @ mats[b], mats[b] @ mats[a])]
+            self.stats.setdefault('dtype_stream', {})[dt] = {
+                'operands': len(names), 'pairs': len(pairs), 'triples': len(triples), 'all_symmetric_noncommuting_pairs': len(nc2),
+            }
+            n2, n3 = budget[dt]
+            for i, ch in enumerate(pairs[:n2]):
+                add(ch, 'comp')
+                add(ch, CONTEXTS[1 + (i % (len(CONTEXTS) - 1))])
+            for i, ch in enumerate(triples[:n3]):
+                add(ch, CONTEXTS[i % len(CONTEXTS)])
+            for i, ch in enumerate(nc2):
+                rest = CONTEXTS[1:]
+                full = not quick or dt == 'complex64'
+                for ctx in (CONTEXTS if full else ['comp', rest[i % len(rest)]]):
+                    add(ch, ctx)
+            ctxs = [c for c in CONTEXTS if c not in ('comp', 'matmul', 'nested')]
+            for i, n in enumerate(names):
+                for ctx in (ctxs if not quick else [ctxs[i % len(ctxs)]] if dt != 'complex64' else [ctxs[i % len(ctxs)], ctxs[(i + 3) % len(ctxs)]]):
+                    add([n], ctx)
+        if bad:
+            self.stats['unbuildable_operands'] = {**(self.stats.get('unbuildable_operands') or {}), **bad}
 
     def search_cases(self):
         # wider stream for the failing-input search (bounded: it runs in one process)
@@ -385,6 +976,8 @@ class Check(PropertyCheck):
         d = {}
         for c in cases:
             k = c['kind'] + ('/' + c['ctx'] + f"/len{len(c['ops'])}" if c['kind'] == 'composite' else '')
+            if c['kind'] == 'dtype':
+                k = f"dtype/{c['dt']}/" + ('operand' if c['ctx'] == 'operand' else f"{c['ctx']}/len{len(c['ops'])}")
             d[k] = d.get(k, 0) + 1
         return d
 
@@ -402,6 +995,8 @@ class Check(PropertyCheck):
     def run_impl(self, case):
         import random
 
+        if case['kind'] == 'dtype':
+            return observe_dtype(case)
         e_env = env()
         e = build_expr(case, e_env)  # the generator only emits well-typed expressions: a failure here is reported
         enc = A.Encoder()
@@ -431,6 +1026,10 @@ class Check(PropertyCheck):
                     pass
             elif name == 'LinearPolarizerOperator':
                 enc.add_table(2 * i, leaf)
+            elif name == 'SymAtom':
+                # a user class decorated @symmetric has no counterpart in Model/Op.v (CAtom transposes lazily):
+                # implementation-side oracle only
+                enc.unsupported = 'user-defined @symmetric class'
         inverse = case['kind'] == 'inverse-skeleton'
         obs = {}
         oT = A.observe_impl(lambda: e.T, enc, want_matrix=not inverse)
@@ -516,6 +1115,17 @@ class Check(PropertyCheck):
         if depth > 4:
             return case
         names = []
+        if case['kind'] == 'dtype':
+            for n in dict.fromkeys(list(case['ops']) + list(case.get('ops2') or [])):
+                if case['ctx'] == 'operand':
+                    break
+                c = {'kind': 'dtype', 'dt': case['dt'], 'ops': [n], 'ctx': 'operand', 'seed': case['seed']}
+                try:
+                    if self.oracle(c, lib.canon(self.run_impl(c))):
+                        return lib.pub(c)
+                except Exception:
+                    continue
+            return lib.pub(case)
         if case['kind'] == 'composite':
             names = list(case['ops']) + list(case.get('ops2') or [])
         elif case['kind'] == 'operand':
@@ -536,6 +1146,8 @@ class Check(PropertyCheck):
 
     # -- oracle -----------------------------------------------------------------------------------
     def oracle(self, case, obs):
+        if case['kind'] == 'dtype':
+            return oracle_dtype(case, obs)
         if not isinstance(obs, dict) or 'build_error' in obs:
             return None
         oT = obs['T']
